@@ -361,4 +361,39 @@ func (c *Cond) Broadcast() {
 // ---------------------------------------------------------------- Map / Pool (not used by gogu; kept so that an edit introducing them still builds)
 
 type Map = sync.Map
-type Pool = sync.Pool
+
+// Pool models sync.Pool as what it is allowed to be: a free list from which Get may return any object
+// that was Put before (here: the most recent one, which is also what the real pool does on one P) or
+// a new one. Get and Put are scheduling points, so "Put, keep using the object, somebody else Gets it"
+// is an interleaving the explorer produces.
+type Pool struct {
+	New  func() any
+	mu   sync.Mutex
+	free []any
+}
+
+func (p *Pool) Get() any {
+	vrt.Sched("Pool.Get")
+	p.mu.Lock()
+	if n := len(p.free); n > 0 {
+		x := p.free[n-1]
+		p.free = p.free[:n-1]
+		p.mu.Unlock()
+		return x
+	}
+	p.mu.Unlock()
+	if p.New != nil {
+		return p.New()
+	}
+	return nil
+}
+
+func (p *Pool) Put(x any) {
+	vrt.Sched("Pool.Put")
+	if x == nil {
+		return
+	}
+	p.mu.Lock()
+	p.free = append(p.free, x)
+	p.mu.Unlock()
+}
